@@ -20,7 +20,7 @@ for (const v of vals) {
   const tv = tag(JSON.parse(v));
   qs.push({ q: "validate", parser, value: tv }, { q: "trio", parser, value: tv }, { q: "errors", parser, value: tv });
 }
-qs.push({ q: "describe", parser }, { q: "hash256", parser }, { q: "schema", parser });
+qs.push({ q: "describe", parser }, { q: "hash256", parser, tokens: !!process.env.TOKENS }, { q: "schema", parser });
 const w = spawn(process.execPath, ["--no-warnings", "/verif/js/worker.mjs"], { stdio: ["pipe", "pipe", "inherit"] });
 let buf = "";
 w.stdout.on("data", (d) => {
